@@ -12,6 +12,7 @@ import (
 	"path/filepath"
 	"sort"
 	"strings"
+	"sync"
 	"time"
 
 	"github.com/pkg/sftp"
@@ -27,6 +28,12 @@ type gCase struct {
 	Prog  gProg  `json:"prog"`
 	Mode  string `json:"mode"`            // gated | free | sleep | serial
 	Order []int  `json:"order,omitempty"` // gated: request numbers (from 0) in the order their held calls return
+	// Hold (gated mode), when not nil: only the calls of these requests are held; the calls of all other requests
+	// return on their own as soon as they are made.
+	Hold []int `json:"hold,omitempty"`
+	// Watch (gated mode): while waiting for calls to reach their gates, give up at once when a Close is entered that
+	// the pipeline cannot have reached yet (implied by Grace > 0).
+	Watch bool   `json:"watch_close,omitempty"`
 	Grace int    `json:"grace_ms,omitempty"`
 	Seed  int64  `json:"seed,omitempty"`
 	Root  string `json:"-"` // os-backed server: scratch root to (re)build; "" = private temp dir
@@ -63,11 +70,121 @@ type gRun struct {
 	Opened    []string // handles handed out by OPEN/OPENDIR requests inside the pipeline
 }
 
+// gCollector takes reply frames off the transport as they arrive.
+type gCollector struct {
+	srv    *peers.Srv
+	mu     sync.Mutex
+	frames []wire.Pkt
+	err    error
+	note   chan struct{}
+	stop   chan struct{}
+	done   chan struct{}
+	halted bool
+}
+
+func newCollector(srv *peers.Srv) *gCollector {
+	c := &gCollector{srv: srv, note: make(chan struct{}, 1), stop: make(chan struct{}), done: make(chan struct{})}
+	go func() {
+		defer close(c.done)
+		for {
+			select {
+			case <-c.stop:
+				return
+			default:
+			}
+			f, err := srv.Recv(2 * time.Millisecond)
+			if err == peers.ErrTimeout {
+				continue
+			}
+			c.mu.Lock()
+			if err != nil {
+				c.err = err
+			} else {
+				c.frames = append(c.frames, f)
+			}
+			c.mu.Unlock()
+			select {
+			case c.note <- struct{}{}:
+			default:
+			}
+			if err != nil {
+				return
+			}
+		}
+	}()
+	return c
+}
+
+// upTo waits until want frames have arrived; it gives up when no frame arrives for the length of deadline.
+// It returns the frames that have arrived so far (all of them: a frame too many shows as such).
+func (c *gCollector) upTo(want int, deadline time.Duration) ([]wire.Pkt, error) {
+	last, t0 := -1, time.Now()
+	for {
+		c.mu.Lock()
+		fs, err := c.frames, c.err
+		c.mu.Unlock()
+		if len(fs) >= want {
+			return fs[:max(want, 0)], nil
+		}
+		if err != nil {
+			return fs, err
+		}
+		if len(fs) != last {
+			last, t0 = len(fs), time.Now()
+		}
+		left := deadline - time.Since(t0)
+		if left <= 0 {
+			return fs, peers.ErrTimeout
+		}
+		select {
+		case <-c.note:
+		case <-time.After(min(left, 50*time.Millisecond)):
+		}
+	}
+}
+
+// halt stops the collector (idempotent); from then on the frames stay on the transport.
+func (c *gCollector) halt() {
+	c.mu.Lock()
+	was := c.halted
+	c.halted = true
+	c.mu.Unlock()
+	if !was {
+		close(c.stop)
+	}
+	<-c.done
+}
+
+// rest returns the frames collected beyond the first n (none in a correct run).
+func (c *gCollector) rest(n int) []wire.Pkt {
+	c.mu.Lock()
+	defer c.mu.Unlock()
+	if len(c.frames) <= n {
+		return nil
+	}
+	return append([]wire.Pkt(nil), c.frames[n:]...)
+}
+
 func (c *gCase) abs(root string) func(string) string {
 	if c.Prog.Server == "rs" {
+		if c.Prog.WorkDir {
+			return func(p string) string { return gRSStartDir + "/" + p }
+		}
 		return func(p string) string { return "/" + p }
 	}
 	return func(p string) string { return filepath.Join(root, p) }
+}
+
+// gRSStartDir is the start directory of request servers run with WorkDir.
+const gRSStartDir = "/wd"
+
+// openName is the name by which the set-up opens an object: the absolute one, or, on a server with a working /
+// start directory, the one relative to it.
+func (c *gCase) openName(root string) func(string) string {
+	if c.Prog.WorkDir {
+		return func(p string) string { return p }
+	}
+	return c.abs(root)
 }
 
 func gAllocCounts(srv *peers.Srv) (int, int, bool) {
@@ -109,6 +226,12 @@ func gExec(cs *gCase) *gRun {
 		if p.MaxTx != 0 {
 			opts = append(opts, sftp.WithMaxTxPacket(p.MaxTx))
 		}
+		if p.ReadOnly {
+			opts = append(opts, sftp.ReadOnly())
+		}
+		if p.WorkDir {
+			opts = append(opts, sftp.WithServerWorkingDirectory(root))
+		}
 		var err error
 		srv, err = peers.StartOS(opts...)
 		if err != nil {
@@ -123,6 +246,9 @@ func gExec(cs *gCase) *gRun {
 		}
 		if p.MaxTx != 0 {
 			opts = append(opts, sftp.WithRSMaxTxPacket(p.MaxTx))
+		}
+		if p.WorkDir {
+			opts = append(opts, sftp.WithStartDirectory(gRSStartDir))
 		}
 		srv = peers.StartRS(rsh.handlers(), opts...)
 	}
@@ -147,18 +273,19 @@ func gExec(cs *gCase) *gRun {
 	// ---- set-up: open the handles one by one, each after the previous reply ----
 	handles := map[string]string{}
 	sid := uint32(0xF0000000)
+	openName := cs.openName(root)
 	for _, h := range p.Handles {
 		sid++
 		var f []byte
 		switch h.Kind {
 		case "get":
-			f = wire.Req(wire.Open, sid, wire.B{}.Str(abs(h.Path)).U32(wire.FRead).U32(0))
+			f = wire.Req(wire.Open, sid, wire.B{}.Str(openName(h.Path)).U32(wire.FRead).U32(0))
 		case "put":
-			f = wire.Req(wire.Open, sid, wire.B{}.Str(abs(h.Path)).U32(wire.FWrite|wire.FCreat|wire.FTrunc).U32(0))
+			f = wire.Req(wire.Open, sid, wire.B{}.Str(openName(h.Path)).U32(wire.FWrite|wire.FCreat|wire.FTrunc).U32(0))
 		case "rw":
-			f = wire.Req(wire.Open, sid, wire.B{}.Str(abs(h.Path)).U32(wire.FRead|wire.FWrite).U32(0))
+			f = wire.Req(wire.Open, sid, wire.B{}.Str(openName(h.Path)).U32(wire.FRead|wire.FWrite).U32(0))
 		case "dir":
-			f = wire.Req(wire.Opendir, sid, wire.B{}.Str(abs(h.Path)))
+			f = wire.Req(wire.Opendir, sid, wire.B{}.Str(openName(h.Path)))
 		}
 		r, err := srv.Call(f)
 		if err != nil || r.Typ != wire.Handle || r.ID() != sid {
@@ -181,6 +308,7 @@ func gExec(cs *gCase) *gRun {
 	}
 	hub.mu.Lock()
 	run.Setup = len(hub.calls)
+	setupCloses := len(hub.closes)
 	hub.counters = map[string]int{}
 	hub.hold = cs.Mode == "gated"
 	if cs.Mode == "sleep" {
@@ -197,12 +325,26 @@ func gExec(cs *gCase) *gRun {
 			hub.pass = append(hub.pass, rt.Forbidden)
 		}
 	}
+	var held map[int]bool
+	if cs.Mode == "gated" && cs.Hold != nil {
+		held = map[int]bool{}
+		hub.only = map[string]bool{}
+		for _, i := range cs.Hold {
+			if i >= 0 && i < len(run.Routes) && run.Routes[i].Sim.Gate != "" {
+				held[i] = true
+				hub.only[run.Routes[i].Sim.Gate] = true
+			}
+		}
+	}
 	hub.mu.Unlock()
 	reqs := make([]simReq, len(p.Ops))
 	var stream []byte
 	var frames [][]byte
 	for i, o := range p.Ops {
 		reqs[i] = run.Routes[i].Sim
+		if held != nil && !held[i] {
+			reqs[i].Gate = "" // for the simulator: returns without being held
+		}
 		h := ""
 		if o.H != "" {
 			if hs, ok := handles[o.H]; ok {
@@ -216,7 +358,24 @@ func gExec(cs *gCase) *gRun {
 		stream = append(stream, fr...)
 	}
 	n := len(p.Ops)
+	// Long pipelines: the transport buffers 4096 unread replies and then stops reading, the server stops writing
+	// and with it the whole pipeline stops. While the harness waits for calls to reach their gates a collector
+	// therefore keeps taking the replies off the transport.
+	var col *gCollector
+	if n > 3000 {
+		col = newCollector(srv)
+		defer col.halt()
+	}
 	recvUpTo := func(want int, deadline time.Duration) error {
+		if col != nil {
+			fs, err := col.upTo(want, deadline)
+			run.Frames = fs
+			if err != nil {
+				gDeadlineHits.Add(1)
+				return fmt.Errorf("reply %d of %d did not arrive: %v", len(run.Frames)+1, n, err)
+			}
+			return nil
+		}
 		for len(run.Frames) < want {
 			f, err := srv.Recv(deadline)
 			if err != nil {
@@ -252,11 +411,24 @@ func gExec(cs *gCase) *gRun {
 			}
 			return ks
 		}
+		gracedCloses := 0
+		// earlyClose (hub locked): a Close call that the pipeline cannot have reached with the gates opened so far
+		// (the simulator takes every step that is enabled, so every Close the server may have made is in its list).
+		type earlyCloseErr struct{ error }
+		var dueCloses map[string]bool
+		earlyClose := func() error {
+			for _, c := range hub.closes[setupCloses:] {
+				if !dueCloses[c.Key] {
+					return earlyCloseErr{fmt.Errorf("%s was entered", c.Key)}
+				}
+			}
+			return nil
+		}
+		if cs.Grace <= 0 && !cs.Watch { // only cases that ask for it (C14)
+			earlyClose = nil
+		}
 		for step := 0; ; step++ {
 			st := sim.started()
-			if err := hub.waitBlocked(keysOf(st), gDeadlineNow()); err != nil {
-				return fault("schedule/blocked-set-differs/"+p.Server, fmt.Sprintf("before opening gate number %d: %v", step, err), step)
-			}
 			// calls that are never held (Close) and that the pipeline has let run by now must have returned before
 			// the next gate is opened, so that the log shows one definite completion order
 			var closes []string
@@ -264,6 +436,26 @@ func gExec(cs *gCase) *gRun {
 				if k := run.Routes[i].CloseKey; k != "" {
 					closes = append(closes, k)
 				}
+			}
+			hub.mu.Lock()
+			dueCloses = map[string]bool{}
+			for _, k := range closes {
+				dueCloses[k] = true
+			}
+			hub.mu.Unlock()
+			earlyFault := func(err error, when string) *gRun {
+				run.GraceViol = fmt.Sprintf("%v %s; calls held at that moment: [%s], calls due to be held: [%s]", err, when, strings.Join(func() []string {
+					hub.mu.Lock()
+					defer hub.mu.Unlock()
+					return hub.blockedLocked()
+				}(), " "), strings.Join(keysOf(st), " "))
+				return fault("close/entered-during-hold/"+p.Server, "Close of the object was entered while reads/writes of earlier requests were held or had not yet been started: "+run.GraceViol, step)
+			}
+			if err := hub.waitBlockedUnless(keysOf(st), gDeadlineNow(), earlyClose); err != nil {
+				if _, early := err.(earlyCloseErr); early {
+					return earlyFault(err, fmt.Sprintf("with %d gates opened, while the calls of the requests before its CLOSE were being started", step))
+				}
+				return fault("schedule/blocked-set-differs/"+p.Server, fmt.Sprintf("before opening gate number %d: %v", step, err), step)
 			}
 			if err := hub.wait(gDeadlineNow(), func() (bool, error) {
 				for _, k := range closes {
@@ -276,17 +468,17 @@ func gExec(cs *gCase) *gRun {
 			}); err != nil {
 				return fault("schedule/close-did-not-run/"+p.Server, fmt.Sprintf("with %d gates opened Close calls [%s] are due: %v", step, strings.Join(closes, " "), err), step)
 			}
-			if step == 0 && cs.Grace > 0 {
-				// nothing else may start while every gate is closed: give a missing barrier time to show
+			if cs.Grace > 0 && len(st) > 0 && (step == 0 || len(closes) > gracedCloses) {
+				// nothing else may start while the calls of st sit on their gates: give a missing barrier time to show.
+				// Done with no gate opened yet and again whenever a CLOSE has completed since (the pipeline has moved
+				// on to the requests behind it, the next CLOSE now stands behind the calls held at this moment).
+				gracedCloses = len(closes)
 				time.Sleep(time.Duration(cs.Grace) * time.Millisecond)
-				if err := hub.waitBlocked(keysOf(st), time.Millisecond); err != nil {
-					return fault("schedule/blocked-set-differs/"+p.Server, "after the grace period: "+err.Error(), step)
-				}
-				calls, _ := hub.snapshot()
-				for _, c := range calls[run.Setup:] {
-					if c.Op == "Close" {
-						run.GraceViol = fmt.Sprintf("%s was entered while the calls [%s] of earlier requests were held", c.Key, strings.Join(keysOf(st), " "))
+				if err := hub.waitBlockedUnless(keysOf(st), time.Millisecond, earlyClose); err != nil {
+					if _, early := err.(earlyCloseErr); early {
+						return earlyFault(err, fmt.Sprintf("with %d gates opened, within %d ms after the calls of the requests before its CLOSE had all been started", step, cs.Grace))
 					}
+					return fault("schedule/blocked-set-differs/"+p.Server, "after the grace period: "+err.Error(), step)
 				}
 			}
 			if err := recvUpTo(len(sim.sent), gDeadlineNow()); err != nil {
@@ -315,6 +507,10 @@ func gExec(cs *gCase) *gRun {
 	}
 	if err := recvUpTo(n, gDeadlineNow()); err != nil {
 		return fault("count/missing-response/"+p.Server, err.Error(), len(cs.Order))
+	}
+	if col != nil {
+		col.halt()
+		run.Extra = append(run.Extra, col.rest(n)...)
 	}
 	select {
 	case err := <-sendErr:
@@ -639,10 +835,16 @@ func gCheckCommon(run *gRun) []lib.Failure {
 			pipelineEnd = c.Fin
 		}
 	}
+	var forbidden []string
+	for _, rt := range run.Routes {
+		if rt.Forbidden != "" {
+			forbidden = append(forbidden, rt.Forbidden)
+		}
+	}
 	for _, c := range run.Calls[run.Setup:] {
 		forb := false
-		for _, rt := range run.Routes {
-			if rt.Forbidden != "" && strings.HasPrefix(c.Key, rt.Forbidden) {
+		for _, pf := range forbidden {
+			if strings.HasPrefix(c.Key, pf) {
 				forb = true
 			}
 		}
